@@ -1,8 +1,20 @@
-(* C13 — privileged effects require the privilege: without it the command changes nothing. *)
+(* C13 — privileged effects require the privilege.
+   Two directions: (a) per command, "unentitled => nothing changes" (C13_kick … C13_join);
+   (b) ONE frame over the whole dispatcher (C13_global_frame / C13_line_frame): whatever line a plain client that is
+   not a channel operator of lc sends, channel lc keeps its name, modes, key, bans, the entries of all other members,
+   its topic unless it is not +t and the sender is a member; the sender becomes a member only through JOIN with the
+   gate `may_join` (C13_may_join: invitation for +i, no matching ban — not lifted by a captcha —, captcha or
+   invitation for +x, exact key for +k); s_server / s_operator are only ever raised by SERVER with a configured services
+   password resp. by presenting configured operator credentials (C13_flags); services handlers are reachable only
+   through the "server_" table keys, i.e. for sessions with s_server (C13_services_need_link); $-notices need
+   operator status (C13_network_notice).  A new or changed handler that touches channel state without a check breaks
+   (b).  Granularity: one line; an IRC operator is entitled to MODE/KILL/GLINE only. *)
 From stdpp Require Import gmap.
 From Coq Require Import Strings.String List.
 From RV Require Import Irc.Str Irc.Parse Irc.State Irc.Monad Irc.Cmds Irc.SCmds Irc.Apply.
+From Coq Require Import NArith.
 From RV Require Import IrcProofs.WP IrcProofs.Inv IrcProofs.Handlers IrcProofs.Privilege.
+From RV Require Import IrcProofs.Top IrcProofs.Privilege2 IrcProofs.Privilege3.
 Local Open Scope string_scope.
 
 Theorem C13_kick : forall k m sv r p0,
@@ -71,3 +83,69 @@ Theorem C13_join : forall k e channelname key sv r s c,
   wp (join_one e k channelname key) (unchanged sv) sv r.
 Proof. exact join_refused. Qed.
 Print Assumptions C13_join.
+
+(* ---- C13 as a frame over the whole dispatcher (IrcProofs/Privilege2.v, Privilege3.v) ---- *)
+Theorem C13_global_frame : forall e sv id un session cmid ra data sv' out s lc c,
+  EInv sv -> apply_entry e sv (EMessage id un session cmid ra data) = OOk sv' out ->
+  sv_sessions sv !! (session, 0%N) = Some s -> s_server s = false ->
+  (s_operator s = false \/ forall m, parse_message data = Some m -> oper_cmd (to_upper (m_cmd m)) = false) ->
+  sv_channels sv !! lc = Some c -> ~ is_chanop sv (session, 0%N) lc ->
+  frame_words (session, 0%N) lc
+    (fun c => exists m, parse_message data = Some m /\ to_upper (m_cmd m) = "JOIN" /\
+                        may_join e (acting_view ra (stamped (timestamp id un) data cmid s)) lc c (offered m)) sv sv' s c.
+Proof. exact C13_frame. Qed.
+Print Assumptions C13_global_frame.
+
+Theorem C13_line_frame : forall e k ra m sv r sv' r' s lc,
+  InvM sv -> sv_sessions sv !! k = Some s -> s_deleted s = false -> s_server s = false ->
+  (s_operator s = false \/ oper_cmd (to_upper (m_cmd m)) = false) ->
+  process_message e k ra (Some m) sv r = Ok (tt, sv', r') -> ~ is_chanop sv k lc ->
+  chan_protected_same k lc (fun c => to_upper (m_cmd m) = "JOIN" /\ may_join e (acting_view ra s) lc c (offered m)) sv sv'.
+Proof. exact line_frame. Qed.
+Print Assumptions C13_line_frame.
+
+Theorem C13_frame_session_end : forall e sv id un session quitmsg sv' out s lc,
+  EInv sv -> apply_entry e sv (EDelete id un session quitmsg) = OOk sv' out ->
+  sv_sessions sv !! (session, 0%N) = Some s -> s_server s = false -> ~ is_chanop sv (session, 0%N) lc ->
+  chan_protected_same (session, 0%N) lc (fun _ => False) sv sv'.
+Proof. exact entry_frame_delete. Qed.
+Print Assumptions C13_frame_session_end.
+
+Theorem C13_may_join : forall e s lc c Off,
+  may_join e s lc c Off <->
+  (has_mode 105 (c_modes c) = true -> lc ∈ s_invited s) /\
+  banned (c_bans c) (prefix_string (s_prefix s)) (s_nick s ++ "!" ++ s_user s ++ "@" ++ s_remoteAddr s) = false /\
+  ((has_mode 120 (c_modes c) = true /\ (recent s = true \/ exists ch key, Off ch key /\ captcha_valid e s key = true)) \/
+   ((has_mode 120 (c_modes c) = true -> lc ∈ s_invited s) /\
+    (has_mode 107 (c_modes c) = true -> exists ch, chan_to_lower ch = lc /\ Off ch (c_key c)))).
+Proof. exact may_join_unfold. Qed.
+Print Assumptions C13_may_join.
+
+Theorem C13_flags : forall e sv en sv',
+  entry_result (apply_entry e sv en) = Some sv' -> entry_flags_ok en sv sv'.
+Proof. exact entry_flags. Qed.
+Print Assumptions C13_flags.
+
+Theorem C13_line_flags : forall e k ra m sv r sv' r' s,
+  sv_sessions sv !! k = Some s -> process_message e k ra (Some m) sv r = Ok (tt, sv', r') ->
+  flags_grow_only_by_auth k s m (line_cred m) sv sv'.
+Proof. exact line_flags. Qed.
+Print Assumptions C13_line_flags.
+
+Theorem C13_services_need_link : forall e k ra m sv r s,
+  sv_sessions sv !! k = Some s -> s_server s = false ->
+  pw (process_message e k ra (Some m))
+     (fun _ sv' _ =>
+        (exists r1 r2, delete_session k (view_state k ra s sv) r1 = Ok (tt, sv', r2)) \/ sv' = view_state k ra s sv \/
+        (exists name minp (f : handler) r1 r2, In (name, (minp, f)) commands /\ has_prefix "server_" name = false /\
+           f e k m (view_state k ra s sv) r1 = Ok (tt, sv', r2))) sv r.
+Proof. exact services_commands_need_link. Qed.
+Print Assumptions C13_services_need_link.
+
+Theorem C13_network_notice : forall k m sv r s target p1 rest,
+  sv_sessions sv !! k = Some s -> s_operator s = false ->
+  m_params m = target :: p1 :: rest -> has_prefix "#" target = false -> has_prefix "$" target = true ->
+  exists o, cmd_privmsg k m sv r = Ok (tt, sv, RCtx (r_msgid r) (o :: r_out r)) /\ o_rcpt o = [fst k] /\
+            o_data o = msg_bytes (srvmsg sv "481" [s_nick s; "Permission Denied - You're not an IRC operator"]).
+Proof. exact network_notice_needs_oper. Qed.
+Print Assumptions C13_network_notice.
